@@ -485,12 +485,19 @@ public:
         }
 
         // For channel allocation:
-        OpnChannel(): koff_time_until_neglible_us(0), users(128)
+        //! The note the total levels and the panning were written for last (valid while `levelled` is set)
+        Location levelled_for;
+        bool     levelled;
+
+        OpnChannel(): koff_time_until_neglible_us(0), users(128), levelled(false)
         {
             std::memset(&recent_ins, 0, sizeof(MIDIchannel::NoteInfo::Phys));
+            levelled_for.MidCh = 0;
+            levelled_for.note = 0;
         }
 
-        OpnChannel(const OpnChannel &oth): koff_time_until_neglible_us(oth.koff_time_until_neglible_us), users(oth.users)
+        OpnChannel(const OpnChannel &oth): koff_time_until_neglible_us(oth.koff_time_until_neglible_us), users(oth.users),
+            levelled_for(oth.levelled_for), levelled(oth.levelled)
         {
         }
 
@@ -498,6 +505,8 @@ public:
         {
             koff_time_until_neglible_us = oth.koff_time_until_neglible_us;
             users = oth.users;
+            levelled_for = oth.levelled_for;
+            levelled = oth.levelled;
             return *this;
         }
 
